@@ -70,7 +70,8 @@ func (ck *Check) optTerm(g *Term, jsonTag string) *Term {
 	opts := field(ck.A.TState, "Opts")
 	f := fieldByJSON(ck.A.TOptions, jsonTag)
 	if opts == nil || f == nil || g == nil {
-		return nil
+		// never nil: an unresolved option becomes an opaque term that matches nothing
+		return &Term{Kind: "opaque", Name: "unresolved-option:" + jsonTag}
 	}
 	return mkField(mkField(g, opts), f)
 }
@@ -84,7 +85,7 @@ func (ck *Check) dryAtoms(fn *ssa.Function) (global, group *Term, err error) {
 	fo := field(ck.A.TController, "Opts")
 	fd := field(ck.A.TOpts, "DryMode")
 	gd := ck.optTerm(g, "dry_mode")
-	if fo == nil || fd == nil || gd == nil {
+	if fo == nil || fd == nil || gd == nil || gd.Kind == "opaque" {
 		return nil, nil, fmt.Errorf("dry-mode fields (Controller.Opts.DryMode, NodeGroupOptions dry_mode) not found")
 	}
 	return mkField(mkField(c, fo), fd), gd, nil
